@@ -51,6 +51,10 @@ def import_xdoctest():
 # trace injector: asynchronous faults at the k-th in-scope line event
 # ----------------------------------------------------------------------------
 
+PEER_SCOPE = {'op', 'emit', 'say', 'aop', '_write', 'point', 'names', 'modglobal',
+              '__aenter__', '__aexit__', '__anext__', '_raise_via'}
+
+
 class Injector:
     """Counts 'line' events in frames that run on behalf of a doctest
     statement and raises at the chosen ordinal.  In scope: the doctest's own
@@ -86,6 +90,8 @@ class Injector:
             self.active += 1
             return self.local_top
         if self.active > 0 and self.in_scope(fn):
+            if fn == peermod.__file__ and code.co_name not in PEER_SCOPE:
+                return None      # the peer's own bookkeeping is harness, not code under test
             return self.local_in
         return None
 
@@ -311,6 +317,8 @@ def _run_wrapper(orig):
                     sys.settrace(None)
             rec['how'] = 'returned'
             rec['summary'] = summarize(self, summary)
+            if ST.scn.get('render') and summary['failed']:
+                rec['render'] = render_failure(self)
             return summary
         except BaseException as ex:
             rec['how'] = 'raised'
@@ -348,6 +356,19 @@ def _run_wrapper(orig):
                     [LOG.norm(t) for t in (rec['logged_stdout'] or []) if t is not None])
     run._sim_wrapped = True
     return run
+
+
+def render_failure(dt):
+    out = {}
+    for with_tb in (True, False):
+        try:
+            lines = dt.repr_failure(with_tb=with_tb)
+            out[str(with_tb)] = LOG.norm('\n'.join(str(l) for l in lines))
+        except Exception as ex:
+            tb = traceback.extract_tb(ex.__traceback__)
+            where = tb[-1].name if tb else '?'
+            out[str(with_tb)] = 'RAISED:%s:%s in %s' % (type(ex).__name__, LOG.norm(str(ex))[:120], where)
+    return out
 
 
 def summarize(dt, summary):
@@ -471,6 +492,8 @@ class NominalPlan(dict):
         f = dict.get(self, key)
         if f is not None:
             if f['kind'] == 'noraise':
+                if PEER.mode == 'real':
+                    PEER.fired.append(('noraise', key[0], key[1], key[2]))
                 return None
             return f
         if key[3] == 0:
